@@ -214,3 +214,178 @@ Proof.
       assert (Hb : bnd cs (length (concat cs))) by (exists cs, []; split; [rewrite app_nil_r; reflexivity|reflexivity]).
       rewrite (char_bracket_step (utf8_indexer foldf) (concat cs) (bnd cs) Hb2 true _ _ _ Hb Hcs). reflexivity.
 Qed.
+
+(* ---- alternations of such sequences (the balanced Alt tree of the parser against the right-nested tree the reference
+   is given): both yield the results of the alternatives in order ---- *)
+Fixpoint alt_of (rs : list regex) : regex :=
+  match rs with
+  | [] => REmpty
+  | [r] => r
+  | r :: t => RAlt r (alt_of t)
+  end.
+
+Section Alt.
+  Variable foldf : N -> bool -> N.
+  Variables unicode utf16 : bool.
+  Variable cs : list (list N).
+  Variable eqclass : N -> list N.
+  Notation canon := (fun x => fold_code_point x unicode).
+  Notation u8 := (utf8_indexer foldf).
+  Notation ES := (es_results canon eqclass (map dec cs)).
+  Notation IR := (ir_results u8 unicode utf16 (concat cs)).
+
+  (* results as positions: the payload of the state (captures) is carried along unchanged *)
+  Definition lift {S} (P : nat -> list nat) (x : nat * S) : list (nat * S) := map (fun j => (j, snd x)) (P (fst x)).
+
+  (* r / n denote P: from fuel kr / kn on, from every state, the results are the positions P of the state *)
+  Definition den (r : regex) (n : node) (P : nat -> list nat) (kr kn : nat) : Prop :=
+    (forall f (x : mstate), (kr <= f)%nat -> ES (S f) r Fwd x = Some (lift P x)) /\
+    (forall f i (G : list groupdata), (kn <= f)%nat -> (i <= length cs)%nat -> IR (S f) n true (off cs i, G) = Some (map (phi cs) (lift P (i, G)))).
+
+  (* positions of a step and of a chain *)
+  Definition posD (t : N -> bool) (i : nat) : list nat :=
+    match nth_error (map dec cs) i with Some d => if t d then [S i] else [] | None => [] end.
+  Lemma stepD_lift {S} t (x : nat * S) : stepD cs t x = lift (posD t) x.
+  Proof. unfold stepD, lift, posD. destruct (nth_error (map dec cs) (fst x)) as [d|]; [destruct (t d)|]; reflexivity. Qed.
+
+  Fixpoint pchain (ts : list (N -> bool)) (l : list nat) : list nat :=
+    match ts with [] => l | t :: ts' => pchain ts' (flat_map (posD t) l) end.
+  Lemma chainD_lift {S} ts : forall (l : list nat) (s : S), chainD cs ts (map (fun j => (j, s)) l) = map (fun j => (j, s)) (pchain ts l).
+  Proof.
+    induction ts as [|t ts IH]; intros l s; cbn [chainD pchain]; [reflexivity|]. rewrite <- IH. f_equal.
+    induction l as [|j l IHl]; [reflexivity|]. cbn [map flat_map]. rewrite map_app, <- IHl. f_equal.
+    rewrite stepD_lift. unfold lift. reflexivity.
+  Qed.
+
+  (* a sequence of atoms denotes its chain of positions *)
+  Lemma den_sequence rs ns ts : Forall3 (atom foldf unicode utf16 cs eqclass) rs ns ts ->
+    den (seq_of rs) (NCat ns) (fun i => pchain ts [i]) (length rs) 1.
+  Proof.
+    intros H3. split.
+    - intros f [i c] Hf. rewrite (es_sequence foldf unicode utf16 cs eqclass rs ts); [|clear - H3; induction H3 as [|r n t rs ns ts [Hr _] _ IH]; constructor; assumption|exact Hf].
+      f_equal. unfold lift. cbn [fst snd]. exact (chainD_lift ts [i] c).
+    - intros f i G Hf Hi. destruct f as [|f']; [lia|].
+      rewrite (proj2 (sequence_of_atoms foldf unicode utf16 cs eqclass rs ns ts H3 (length rs) f' i [] G (Nat.le_refl _) Hi)).
+      f_equal. f_equal. unfold lift. cbn [fst snd]. exact (chainD_lift ts [i] G).
+  Qed.
+
+  Lemma den_weaken r n P kr kn kr' kn' : (kr <= kr')%nat -> (kn <= kn')%nat -> den r n P kr kn -> den r n P kr' kn'.
+  Proof. intros H1 H2 [Hr Hn]. split; [intros f x Hf; apply Hr; lia|intros f i G Hf Hi; apply Hn; [lia|exact Hi]]. Qed.
+
+  Lemma es_alt_unfold f a b x : ES (S f) (RAlt a b) Fwd x =
+    match ES f a Fwd x, ES f b Fwd x with Some u, Some v => Some (u ++ v) | _, _ => None end.
+  Proof. destruct x; reflexivity. Qed.
+  Lemma ir_alt_unfold f a b x : IR (S f) (NAlt a b) true x =
+    match IR f a true x, IR f b true x with Some u, Some v => Some (u ++ v) | _, _ => None end.
+  Proof. destruct x; reflexivity. Qed.
+
+  Definition catP (Ps : list (nat -> list nat)) (i : nat) : list nat := flat_map (fun P => P i) Ps.
+  Lemma lift_catP {S} Ps (x : nat * S) : lift (catP Ps) x = flat_map (fun P => lift P x) Ps.
+  Proof. unfold lift, catP. induction Ps as [|P Ps IH]; [reflexivity|]. cbn [flat_map]. rewrite map_app, IH. reflexivity. Qed.
+
+  (* the reference side of a right-nested alternation *)
+  Lemma es_alt_right k : forall rs Ps, Forall2 (fun r P => forall f (x : mstate), (k <= f)%nat -> ES (S f) r Fwd x = Some (lift P x)) rs Ps ->
+    rs <> [] -> forall f x, (k + length rs <= f)%nat -> ES (S f) (alt_of rs) Fwd x = Some (lift (catP Ps) x).
+  Proof.
+    induction 1 as [|r P rs Ps Hr Hrest IH]; intros Hne f x Hf; [contradiction|]. rewrite lift_catP. cbn [flat_map].
+    destruct rs as [|r2 rs'].
+    - inversion Hrest; subst. cbn [alt_of flat_map]. rewrite app_nil_r. apply Hr. lia.
+    - change (alt_of (r :: r2 :: rs')) with (RAlt r (alt_of (r2 :: rs'))). cbn [length] in Hf. destruct f as [|f0]; [lia|].
+      rewrite es_alt_unfold. rewrite (Hr f0 x) by lia.
+      rewrite (IH ltac:(discriminate) f0 x) by (cbn [length]; lia). rewrite lift_catP. reflexivity.
+  Qed.
+
+  (* the IR side: any Alt tree over the alternatives, in order *)
+  Inductive atree := ALeaf (n : node) | ANode (l r : atree).
+  Fixpoint to_node (t : atree) : node := match t with ALeaf n => n | ANode l r => NAlt (to_node l) (to_node r) end.
+  Fixpoint leaves (t : atree) : list node := match t with ALeaf n => [n] | ANode l r => leaves l ++ leaves r end.
+  Fixpoint depth (t : atree) : nat := match t with ALeaf _ => 0%nat | ANode l r => S (Nat.max (depth l) (depth r)) end.
+
+  Lemma ir_alt_tree k : forall t Ps, Forall2 (fun n P => forall f i (G : list groupdata), (k <= f)%nat -> (i <= length cs)%nat ->
+       IR (S f) n true (off cs i, G) = Some (map (phi cs) (lift P (i, G)))) (leaves t) Ps ->
+    forall f i G, (k + depth t <= f)%nat -> (i <= length cs)%nat ->
+      IR (S f) (to_node t) true (off cs i, G) = Some (map (phi cs) (lift (catP Ps) (i, G))).
+  Proof.
+    induction t as [n|l IHl r IHr]; intros Ps HF f i G Hf Hi.
+    - cbn [leaves] in HF. inversion HF as [|? P ? ? Hn Hr]; subst. inversion Hr; subst. rewrite lift_catP. cbn [to_node flat_map]. rewrite app_nil_r.
+      apply Hn; [cbn [depth] in Hf; lia|exact Hi].
+    - cbn [leaves] in HF. apply Forall2_app_inv_l in HF as (P1 & P2 & H1 & H2 & ->).
+      cbn [to_node depth] in *. destruct f as [|f0]; [lia|]. rewrite ir_alt_unfold.
+      rewrite (IHl P1 H1 f0 i G) by lia. rewrite (IHr P2 H2 f0 i G) by lia.
+      rewrite !lift_catP, flat_map_app, map_app. reflexivity.
+  Qed.
+
+  (* together: a right-nested reference alternation and any Alt tree over alternatives that pairwise denote the same
+     positions yield the same results *)
+  Theorem alternation : forall rs t Ps kr kn, Forall3 (fun r n P => den r n P kr kn) rs (leaves t) Ps -> rs <> [] ->
+    den (alt_of rs) (to_node t) (catP Ps) (kr + length rs) (kn + depth t).
+  Proof.
+    intros rs t Ps kr kn H3 Hne. split.
+    - intros f x Hf. apply (es_alt_right kr rs Ps); [|exact Hne|exact Hf].
+      clear - H3. induction H3 as [|r n P rs ns Ps [Hr _] _ IH]; constructor; [exact Hr|exact IH].
+    - intros f i G Hf Hi. apply (ir_alt_tree kn t Ps); [|exact Hf|exact Hi].
+      clear - H3. remember (leaves t) as ns. clear Heqns. induction H3 as [|r n P rs ns Ps [_ Hn] _ IH]; constructor; [exact Hn|exact IH].
+  Qed.
+
+  (* the balanced tree Parser::make_alt builds *)
+  Lemma make_alt_tree : forall fuel l, l <> [] -> (length l <= fuel)%nat ->
+    exists t, make_alt fuel l = to_node t /\ leaves t = l /\ (depth t <= fuel)%nat.
+  Proof.
+    induction fuel as [|k IH]; intros l Hne Hl; [destruct l; [contradiction|cbn [length] in Hl; lia]|].
+    destruct l as [|x [|y r]]; [contradiction|exists (ALeaf x); repeat split; cbn; lia|].
+    set (l := x :: y :: r) in *. set (h := Nat.div (length l) 2).
+    assert (Hh : (1 <= h /\ h < length l)%nat).
+    { subst h l. cbn [length]. pose proof (Nat.div_mod (S (S (length r))) 2 ltac:(lia)). pose proof (Nat.mod_upper_bound (S (S (length r))) 2 ltac:(lia)). lia. }
+    destruct (IH (firstn h l)) as (t1 & E1 & L1 & D1).
+    { intros E. apply (f_equal (@length node)) in E. rewrite firstn_length in E. cbn [length] in E. lia. }
+    { rewrite firstn_length. lia. }
+    destruct (IH (skipn h l)) as (t2 & E2 & L2 & D2).
+    { intros E. apply (f_equal (@length node)) in E. rewrite skipn_length in E. cbn [length] in E. lia. }
+    { rewrite skipn_length. lia. }
+    exists (ANode t1 t2). split; [|split].
+    - change (make_alt (S k) l) with (NAlt (make_alt k (firstn h l)) (make_alt k (skipn h l))). rewrite E1, E2. reflexivity.
+    - cbn [leaves]. rewrite L1, L2. apply firstn_skipn.
+    - cbn [depth]. lia.
+  Qed.
+
+  Lemma den_ext r n P P' kr kn : (forall i, P i = P' i) -> den r n P kr kn -> den r n P' kr kn.
+  Proof.
+    intros HP [Hr Hn]. split.
+    - intros f x Hf. rewrite (Hr f x Hf). unfold lift. rewrite HP. reflexivity.
+    - intros f i G Hf Hi. rewrite (Hn f i G Hf Hi). unfold lift. cbn [fst]. rewrite HP. reflexivity.
+  Qed.
+
+  (* one alternative: a term of atoms, as Parser::make_cat builds it *)
+  Lemma den_term rs ns ts : Forall3 (atom foldf unicode utf16 cs eqclass) rs ns ts ->
+    den (seq_of rs) (make_cat ns) (fun i => pchain ts [i]) (length rs) 1.
+  Proof.
+    intros H3. destruct H3 as [|r n t rs ns ts Ha Hrest].
+    - cbn [seq_of make_cat pchain length]. split; [intros f [p c] _; reflexivity|intros f i G _ _; reflexivity].
+    - destruct Hrest as [|r2 n2 t2 rs ns ts Ha2 Hrest].
+      + cbn [seq_of make_cat length]. apply (den_weaken r n _ 0 0); [lia|lia|].
+        apply (den_ext r n (posD t)); [intros i; cbn [pchain flat_map]; rewrite app_nil_r; reflexivity|].
+        destruct Ha as [Hr Hn]. split.
+        * intros f x _. rewrite Hr. apply f_equal. apply stepD_lift.
+        * intros f i G _ Hi. rewrite (Hn f i G Hi). apply f_equal. change (fun y : nat * list groupdata => (off cs (fst y), snd y)) with (@phi cs (list groupdata)).
+          f_equal. apply stepD_lift.
+      + change (make_cat (n :: n2 :: ns)) with (NCat (n :: n2 :: ns)). apply den_sequence. constructor; [exact Ha|constructor; assumption].
+  Qed.
+
+  (* an alternation of terms of atoms: the reference tree against the IR node Parser builds with make_cat / make_alt *)
+  Theorem alternation_of_terms : forall rss nss tss, Forall3 (Forall3 (atom foldf unicode utf16 cs eqclass)) rss nss tss -> rss <> [] ->
+    forall fuel, (length nss <= fuel)%nat -> forall m, Forall (fun rs => (length rs <= m)%nat) rss ->
+    den (alt_of (map seq_of rss)) (make_alt fuel (map make_cat nss)) (catP (map (fun ts i => pchain ts [i]) tss))
+        (m + length rss) (1 + fuel).
+  Proof.
+    intros rss nss tss H3 Hne fuel Hfuel m Hm.
+    assert (Hln : length nss = length rss) by (clear - H3; induction H3; cbn [length]; congruence).
+    destruct (make_alt_tree fuel (map make_cat nss)) as (t & Et & Lt & Dt).
+    { destruct nss; [destruct rss; [contradiction|discriminate Hln]|discriminate]. }
+    { rewrite map_length. exact Hfuel. }
+    rewrite Et. apply (den_weaken _ _ _ (m + length (map seq_of rss)) (1 + depth t)); [rewrite map_length; lia|lia|].
+    apply alternation; [|destruct rss; [contradiction|discriminate]].
+    rewrite Lt. clear - H3 Hm. induction H3 as [|rs ns ts rss nss tss Ht Hrest IH]; cbn [map]; constructor.
+    - inversion Hm; subst. apply (den_weaken _ _ _ (length rs) 1); [assumption|lia|]. apply den_term. exact Ht.
+    - apply IH. inversion Hm; assumption.
+  Qed.
+End Alt.
